@@ -46,7 +46,7 @@ def attr_collision(spec) -> bool:
 def mech(kind: str, what: str, spec, extra_pred=None) -> str:
     if extra_pred:
         return f"{kind}:{extra_pred}"
-    if attr_collision(spec):
+    if attr_collision(spec) and what.startswith(("malformed", "raises")):
         return f"{kind}:consumed-output-named-like-node-attribute"
     return f"{kind}:{what}"
 
@@ -447,7 +447,7 @@ def one_case(col: Collector, rng, index: int, max_nodes: int):
     tname = rng.choice(["copy", "rename", "dedup", "dedup", "fuse", "fuse", "expand", "expand", "expand", "split", "split"])
     hostile = rng.random() < 0.15
     spec = gen_spec(rng, max_nodes=max_nodes, names=rng.choice(["collide", "collide", "plain"]), hostile_outputs=hostile,
-                    dup_payloads=0.7 if tname == "dedup" else 0.3)
+                    dup_payloads=0.7 if tname == "dedup" else 0.3, clones=0.25 if tname in ("dedup", "fuse", "copy") else 0.05)
     spec0 = _copy.deepcopy(spec)
     try:
         pshape = TRANSFORMS[tname](col, rng, spec, index)
